@@ -83,7 +83,7 @@ static void run_one(const uint8_t *data, size_t size)
   // A loader may print a line per record/section/symbol: bounded by the file size or by a 16 bit count in a
   // header (e_shnum = 65535 sections of a few dozen characters each).  More than that is a loop.
   fz_out_strict = 1;
-  fz_out_budget = (8 << 20) + 256L * (long)size;
+  fz_out_budget = (24 << 20) + 256L * (long)size;     // 65535 sections x (127 character name + text) is about 11 MB
   NV_CATCH_EXIT({ ret = file_read(name, uc, &file_type, cpu_name, start_address); }, status);
   fz_out_strict = 0;
   fz_out_budget = 4 << 20;
